@@ -224,14 +224,14 @@ def mc(ctx, name, cfg, tla, workers=8, env=None, extra=None, timeout=1800, must_
     return r
 
 
-def gen(ctx, name, cfg, tla, workers=8, env=None, extra=None, timeout=1800, simulate=None):
+def gen(ctx, name, cfg, tla, workers=8, env=None, extra=None, timeout=1800, simulate=None, sim_workers=1):
     """Run a Gen_* config (BFS or -simulate) and return the emitted cases."""
     ex = list(extra or [])
     w = workers
     if simulate:
         n, depth = simulate
         ex += ["-simulate", "num=%d" % n, "-depth", str(depth), "-seed", str(ctx.seed)]
-        w = 1
+        w = sim_workers          # num is per worker
         ctx.exhaustive = False
     r = run_tlc(ctx, "gen_" + name, cfg, tla, workers=w, env=env, extra=ex, timeout=timeout, bfs=True)
     cases = r.cases()
